@@ -7,6 +7,7 @@
 (*     template<class A, class B [= dflt]> struct P { m1; m2; };           *)
 (*     template<class X>                   struct Q { m1; m2; };           *)
 (*     template<class Y>                   struct R { m1; m2; };           *)
+(*     template<class Z> using V = alias;          (an alias template)     *)
 (* Each member slot is a typedef whose target is a type term over the      *)
 (* template's own parameters.  The program is built step by step (the      *)
 (* behaviour is the input): SetDefault, AddMember ..., and finally one Ask *)
@@ -35,7 +36,7 @@ EXTENDS Naturals, Sequences, FiniteSets, TLC
 
 CONSTANTS MaxDefs,           \* bound on the number of typedef members a program defines
           MinDefs,           \* a query is asked only of programs with at least so many (steers simulation)
-          BodyTerms, DfltTerms, QueryTerms     \* the alphabets (see TemplInstMC)
+          BodyTerms, DfltTerms, AliasTerms, QueryTerms     \* the alphabets (see TemplInstMC)
 
 Tmpl == {"P", "Q", "R"}
 Level == [P |-> 1, Q |-> 2, R |-> 3]
@@ -46,8 +47,9 @@ BAD == <<"bad">>
 
 VARIABLES dflt,       \* NONE or the default argument of P's second parameter (a term over <<"p",1>>)
           defs,       \* defs[T][slot] : NONE or the member typedef's target
+          alias,      \* NONE or the target of the alias template V (a term over <<"p",1>>)
           query       \* NONE or the closed term that is asked about
-vars == <<dflt, defs, query>>
+vars == <<dflt, defs, alias, query>>
 
 ---------------------------------------------------------------------------
 RECURSIVE Subst(_, _, _)
@@ -79,6 +81,8 @@ Norm(t) ==
     [] t[1] = "ptr" -> LET n == Norm(t[2]) IN IF n = BAD \/ n[1] = "ref" THEN BAD ELSE <<"ptr", n>>
     [] t[1] = "ref" -> LET n == Norm(t[2]) IN IF n = BAD THEN BAD ELSE IF n[1] = "ref" THEN n ELSE <<"ref", n>>
     [] t[1] = "c" -> LET n == Norm(t[2]) IN IF n = BAD THEN BAD ELSE IF n[1] \in {"ref", "c"} THEN n ELSE <<"c", n>>
+    [] t[1] = "t" /\ t[2] = "V" ->        \* an alias template-id is its target, nothing else [temp.alias]
+         LET a == Norm(t[3][1]) IN IF a = BAD \/ alias = NONE THEN BAD ELSE Norm(Subst(alias, "V", <<a>>))
     [] t[1] = "t" -> LET a == NormArgs(t[2], t[3]) IN IF Len(a) = 0 THEN BAD ELSE <<"t", t[2], a>>
     [] t[1] = "m" -> LET n == Norm(t[2])
                      IN IF n = BAD \/ n[1] # "t" THEN BAD
@@ -95,6 +99,8 @@ NormE(t) ==
     [] t[1] = "ptr" -> LET n == NormE(t[2]) IN IF n = BAD \/ n[1] = "ref" THEN BAD ELSE <<"ptr", n>>
     [] t[1] = "ref" -> LET n == NormE(t[2]) IN IF n = BAD THEN BAD ELSE IF n[1] = "ref" THEN n ELSE <<"ref", n>>
     [] t[1] = "c" -> LET n == NormE(t[2]) IN IF n = BAD THEN BAD ELSE IF n[1] \in {"ref", "c"} THEN n ELSE <<"c", n>>
+    [] t[1] = "t" /\ t[2] = "V" ->
+         LET a == NormE(t[3][1]) IN IF a = BAD \/ alias = NONE THEN BAD ELSE NormE(Subst(alias, "V", <<a>>))
     [] t[1] = "t" ->
          LET n == [i \in 1..Len(t[3]) |-> NormE(t[3][i])]
          IN IF \E i \in 1..Len(n) : n[i] = BAD THEN BAD
@@ -155,7 +161,14 @@ UsesDefault(t) ==
     [] t[1] = "t" -> (t[2] = "P" /\ Len(t[3]) = 1) \/ \E i \in 1..Len(t[3]) : UsesDefault(t[3][i])
     [] OTHER -> FALSE
 
+RECURSIVE NamesV(_)
+NamesV(t) ==
+  CASE t[1] \in {"ptr", "ref", "c", "m"} -> NamesV(t[2])
+    [] t[1] = "t" -> t[2] = "V" \/ \E i \in 1..Len(t[3]) : NamesV(t[3][i])
+    [] OTHER -> FALSE
+
 NDefs == Cardinality({<<T, s>> \in Tmpl \X Slots : defs[T][s] # NONE}) + (IF dflt = NONE THEN 0 ELSE 1)
+         + (IF alias = NONE THEN 0 ELSE 1)
 
 \* body term b is admissible as slot s of template T
 BodyOK(T, s, b) ==
@@ -163,31 +176,41 @@ BodyOK(T, s, b) ==
   /\ \A U \in Projects(b) : Level[U] < Level[T]           \* stratification: instantiation terminates
   /\ UsesOwn(b) \subseteq (IF s = "m2" /\ defs[T]["m1"] # NONE THEN {"m1"} ELSE {})
   /\ NoPtrRef(b) /\ ProjDependent(b)
-  /\ (UsesDefault(b) => dflt # NONE)
+  /\ (UsesDefault(b) => dflt # NONE) /\ ~NamesV(b)
 
 ---------------------------------------------------------------------------
-Init == dflt = NONE /\ defs = [T \in Tmpl |-> [s \in Slots |-> NONE]] /\ query = NONE
+Init == dflt = NONE /\ defs = [T \in Tmpl |-> [s \in Slots |-> NONE]] /\ alias = NONE /\ query = NONE
 
 SetDefault(d) ==
   /\ query = NONE /\ dflt = NONE /\ NDefs < MaxDefs
   /\ \A T \in Tmpl, s \in Slots : defs[T][s] = NONE       \* the default is on the first declaration
   /\ Params(d) \subseteq {1} /\ NoPtrRef(d) /\ Projects(d) = {} /\ UsesOwn(d) = {} /\ ~UsesDefault(d)
-  /\ dflt' = d /\ UNCHANGED <<defs, query>>
+  /\ dflt' = d /\ UNCHANGED <<defs, alias, query>>
 
 AddMember(T, s, b) ==
-  /\ query = NONE /\ defs[T][s] = NONE /\ NDefs < MaxDefs
+  /\ query = NONE /\ defs[T][s] = NONE /\ NDefs < MaxDefs /\ alias = NONE
   /\ (s = "m1" => defs[T]["m2"] = NONE)                   \* members are written in slot order
   /\ \A U \in Tmpl : Level[U] > Level[T] => \A s2 \in Slots : defs[U][s2] = NONE    \* templates in level order
   /\ BodyOK(T, s, b)
-  /\ defs' = [defs EXCEPT ![T][s] = b] /\ UNCHANGED <<dflt, query>>
+  /\ defs' = [defs EXCEPT ![T][s] = b] /\ UNCHANGED <<dflt, alias, query>>
+
+\* the alias template is written after the three class templates
+SetAlias(b) ==
+  /\ query = NONE /\ alias = NONE /\ NDefs < MaxDefs
+  /\ Params(b) \subseteq {1} /\ UsesOwn(b) = {} /\ NoPtrRef(b) /\ ProjDependent(b)
+  /\ (UsesDefault(b) => dflt # NONE)
+  /\ ~NamesV(b)
+  /\ alias' = b /\ UNCHANGED <<dflt, defs, query>>
 
 Ask(q) ==
   /\ query = NONE /\ NDefs >= MinDefs
   /\ Norm(q) # BAD                                        \* well-formed programs only
-  /\ query' = q /\ UNCHANGED <<dflt, defs>>
+  /\ (NamesV(q) => alias # NONE)
+  /\ query' = q /\ UNCHANGED <<dflt, defs, alias>>
 
 Next == \/ \E d \in DfltTerms : SetDefault(d)
         \/ \E T \in Tmpl, s \in Slots, b \in BodyTerms : AddMember(T, s, b)
+        \/ \E b \in AliasTerms : SetAlias(b)
         \/ \E q \in QueryTerms : Ask(q)
 Spec == Init /\ [][Next]_vars
 
